@@ -10,13 +10,18 @@
 EXTENDS Integers, Sequences, FiniteSets, TLC
 CONSTANTS Prog,          \* function thread -> sequence of op names
           SemInit, SigInit,
-          AllowSpurious  \* BOOLEAN
+          AllowSpurious, \* BOOLEAN
+          FixSignalGen   \* BOOLEAN: Signal::wait also returns when set() has been called since it began waiting (the
+                         \* generation counter of the repair); FALSE = the code as it was (a set() directly followed by
+                         \* a reset() released nobody: PrimsImpl_sig5_unfixed.cfg)
 Ts == DOMAIN Prog
-VARIABLES pc, stage, owner, depth, cw, sigd, flag, count, done, res, mflag, credit, monBad 
+VARIABLES pc, stage, owner, depth, cw, sigd, flag, count, done, res, mflag, credit, monBad, gen, wgen, must, sigBad
 \* pc[t] index into Prog[t]; stage[t] name of the scheduling point; owner/depth the mutex (of the Mutex, of the Signal or
 \* of the Monitor); cw condition waiters; sigd those of them already signalled; flag Signal::signaled; mflag
 \* Monitor::signaled; credit = set() calls minus successful waits (capped at 4); count semaphore; done = number of executed "mdone"; res[t] = results of finished operations
-vars == <<pc, stage, owner, depth, cw, sigd, flag, count, done, res, mflag, credit, monBad>>
+\* gen Signal::generation (modulo 8), wgen[t] its value when t's wait took the mutex first; must = the waiters that were blocked
+\* in the condition wait when a set() took effect; sigBad = one of them returned false (ghost)
+vars == <<pc, stage, owner, depth, cw, sigd, flag, count, done, res, mflag, credit, monBad, gen, wgen, must, sigBad>>
 
 Op(t) == IF pc[t] = 0 THEN "start" ELSE IF pc[t] <= Len(Prog[t]) THEN Prog[t][pc[t]] ELSE "end"
 Timed(op) == op \in {"twait", "stwait", "mtwait"}
@@ -24,7 +29,7 @@ NWaiters == Cardinality({ t \in Ts : \E i \in DOMAIN Prog[t] : Prog[t][i] = "mdo
 
 \* the state record manipulated by the operators below
 S == [pc |-> pc, stage |-> stage, owner |-> owner, depth |-> depth, cw |-> cw, sigd |-> sigd, flag |-> flag, count |-> count,
-      done |-> done, res |-> res, mflag |-> mflag, credit |-> credit, monBad |-> monBad]
+      done |-> done, res |-> res, mflag |-> mflag, credit |-> credit, monBad |-> monBad, gen |-> gen, wgen |-> wgen, must |-> must, sigBad |-> sigBad]
 
 Free(s, t) == s.owner = 0
 FreeOrOwn(s, t) == s.owner \in {0, t}
@@ -51,7 +56,7 @@ Enter(s0, t) ==
 Finish(s, t, r) == Enter(Result(s, t, r), t)
 
 \* Signal::wait body once the mutex is held: test the flag, else wait on the condition
-SigTest(s, t) == IF s.flag THEN Park(Release(s, t), t, "u") ELSE Park([Release(s, t) EXCEPT !.cw = s.cw \cup {t}], t, "c")
+SigTest(s, t) == IF s.flag \/ (FixSignalGen /\ s.gen # s.wgen[t]) THEN Park(Release(s, t), t, "u") ELSE Park([Release(s, t) EXCEPT !.cw = s.cw \cup {t}], t, "c")
 \* Monitor::wait after waking up with the mutex held: consume the flag or wait again
 MonTest(s, t) == IF s.mflag THEN Finish([s EXCEPT !.mflag = FALSE, !.credit = IF s.credit > 0 THEN s.credit - 1 ELSE 0, !.monBad = s.monBad \/ s.credit = 0], t, 1)
                  ELSE Park([Release(s, t) EXCEPT !.cw = s.cw \cup {t}], t, "c")
@@ -83,18 +88,18 @@ Move(s, t) ==
     [] op \in {"swait", "stwait"} /\ st = "s" -> Finish([s EXCEPT !.count = s.count - 1], t, 1)
     [] op = "strywait" /\ st = "a" -> IF s.count > 0 THEN Finish([s EXCEPT !.count = s.count - 1], t, 1) ELSE Finish(s, t, 0)
     \* Signal::set: lock; signaled = true; broadcast (still holding the mutex) | unlock
-    [] op = "set" /\ st = "a" -> Park([Acquire(s, t) EXCEPT !.flag = TRUE, !.sigd = s.cw], t, "b")
+    [] op = "set" /\ st = "a" -> Park([Acquire(s, t) EXCEPT !.flag = TRUE, !.sigd = s.cw, !.gen = (s.gen + 1) % 8, !.must = s.must \cup { u \in s.cw : Op(u) \in {"wait", "twait"} }], t, "b")
     [] op = "set" /\ st = "b" -> Park(Release(s, t), t, "d")
     [] op = "set" /\ st = "d" -> Finish(s, t, 1)
     [] op = "reset" /\ st = "a" -> Park([s EXCEPT !.flag = FALSE], t, "b")
     [] op = "reset" /\ st = "b" -> Finish(s, t, 1)
     \* Signal::wait
-    [] op \in {"wait", "twait"} /\ st = "a" -> SigTest(Acquire(s, t), t)
+    [] op \in {"wait", "twait"} /\ st = "a" -> SigTest([Acquire(s, t) EXCEPT !.wgen[t] = s.gen], t)
     [] op \in {"wait", "twait"} /\ st = "c" -> IF Free(s, t) THEN SigTest(Acquire(Unwait(s, t), t), t) ELSE Park(Unwait(s, t), t, "m")
     [] op \in {"wait", "twait"} /\ st = "m" -> SigTest(Acquire(s, t), t)
-    [] op \in {"wait", "twait"} /\ st = "u" -> Finish(s, t, 1)
+    [] op \in {"wait", "twait"} /\ st = "u" -> Finish([s EXCEPT !.must = s.must \ {t}], t, 1)
     [] op = "twait" /\ st = "mt" -> Park(Release(Acquire(s, t), t), t, "ut")          \* timed out: re-acquire, unlock
-    [] op = "twait" /\ st = "ut" -> Finish(s, t, 0)
+    [] op = "twait" /\ st = "ut" -> Finish([s EXCEPT !.sigBad = s.sigBad \/ t \in s.must, !.must = s.must \ {t}], t, 0)
     \* Monitor
     [] op = "mlock" /\ st = "a" -> Finish(Acquire(s, t), t, 1)
     [] op \in {"mwait", "mtwait"} /\ st = "c" -> IF Free(s, t) THEN MonTest(Acquire(Unwait(s, t), t), t) ELSE Park(Unwait(s, t), t, "m")
@@ -113,6 +118,7 @@ SignalOne(s, t, w) == Park([s EXCEPT !.sigd = s.sigd \cup (IF w = 0 THEN {} ELSE
 
 Apply(s) == /\ pc' = s.pc /\ stage' = s.stage /\ owner' = s.owner /\ depth' = s.depth /\ cw' = s.cw /\ sigd' = s.sigd /\ flag' = s.flag
             /\ count' = s.count /\ done' = s.done /\ res' = s.res /\ mflag' = s.mflag /\ credit' = s.credit /\ monBad' = s.monBad
+            /\ gen' = s.gen /\ wgen' = s.wgen /\ must' = s.must /\ sigBad' = s.sigBad
 
 Step(t) ==
   /\ Eligible(S, t)
@@ -124,7 +130,7 @@ Step(t) ==
 Spur(t) == /\ AllowSpurious /\ stage[t] = "c" /\ t \notin sigd /\ Apply([S EXCEPT !.sigd = sigd \cup {t}])
 \* the time-out of a timed wait fires (condition wait or semaphore wait)
 Timeout(t) ==
-  \/ /\ stage[t] = "c" /\ Timed(Op(t))            \* (the deadline is absolute: it also passes while wake-ups keep coming)
+  \/ /\ stage[t] = "c" /\ Timed(Op(t)) /\ t \notin sigd   \* a waiter that has been woken (signal, broadcast, spuriously) does not time out in this wait
      /\ Apply(IF Free(S, t)
               THEN (IF Op(t) = "twait" THEN Park(Release(Acquire(Unwait(S, t), t), t), t, "ut") ELSE Finish(Acquire(Unwait(S, t), t), t, 0))
               ELSE Park(Unwait(S, t), t, "mt"))
@@ -132,15 +138,17 @@ Timeout(t) ==
 
 Init == /\ pc = [t \in Ts |-> 0] /\ stage = [t \in Ts |-> "x"] /\ owner = 0 /\ depth = 0 /\ cw = {} /\ sigd = {}
         /\ flag = SigInit /\ count = SemInit /\ done = 0 /\ res = [t \in Ts |-> <<>>] /\ mflag = FALSE /\ credit = 0 /\ monBad = FALSE
+        /\ gen = 0 /\ wgen = [t \in Ts |-> 0] /\ must = {} /\ sigBad = FALSE
 Next == \E t \in Ts : Step(t) \/ Spur(t) \/ Timeout(t)
 Spec == Init /\ [][Next]_vars
 \* threads are scheduled (strongly) fairly - a thread that can take the mutex infinitely often eventually gets it -
 \* and pending time-outs eventually fire; spurious wake-ups are not fair
-FairSpec == Spec /\ \A t \in Ts : SF_vars(Step(t)) /\ WF_vars(Timeout(t))
+FairSpec == Spec /\ \A t \in Ts : SF_vars(Step(t)) /\ SF_vars(Timeout(t))
 
 \* ---- properties
 MutexOK == /\ depth >= 0 /\ (owner = 0) = (depth = 0)
 SemOK == count >= 0                                              \* successful waits never exceed initial value + signals
+SetReleasesAll == ~sigBad                               \* no waiter that a set() found blocked gives up afterwards
 MonitorOK == ~monBad                                     \* successful Monitor waits never outnumber set() calls
 UntimedWaitsSucceed == \A t \in Ts : \A i \in DOMAIN res[t] : Prog[t][i] \in {"wait", "swait", "mwait", "lock"} => res[t][i] = 1
 AllEnded == \A t \in Ts : stage[t] = "end"
